@@ -314,7 +314,8 @@ CORPUS = [
     _P("reshape_cf", [ph("x", (2, 3, 4))],
        lambda L, x: {"c": L.reshape(x, (6, 4)), "f": L.reshape(x, (6, 4), order="F"), "c2": L.reshape(x, (4, 6)),
                      "f2": L.reshape(x, (2, 12), order="F"), "unit": L.reshape(x, (2, 1, 3, 4, 1), order="F"),
-                     "flat": L.reshape(x, (-1,)), "both": L.reshape(x, (4, 6)) + L.reshape(x, (4, 6), order="F")}),
+                     "flat": L.reshape(x, (-1,)), "both": L.reshape(x, (4, 6)) + L.reshape(x, (4, 6), order="F"),
+                     "lc": L.reshape(x, (4, 6), order="c"), "lf": L.reshape(x, (3, 8), order="f")}),
     _P("dims", [ph("x", (3, 1, 2)), ph("y", (2,))],
        lambda L, x, y: {"sq": L.squeeze(x), "ex": L.expand_dims(y, 0), "ex2": L.expand_dims(y, (0, 2)),
                         "bt": L.broadcast_to(y, (3, 2)), "bt2": L.broadcast_to(x, (4, 3, 5, 2)) + 0}),
